@@ -15,6 +15,7 @@
 -/
 import GLua.Basic
 import GLua.Generated.Consts
+import GLua.Spec.StackSpec   -- only for the syntax of histories (`StackOp`)
 
 namespace GLua.ApiStack
 open GLua
@@ -125,9 +126,14 @@ deriving DecidableEq, Repr, Inhabited
 
 def currentLocalBase (s : St) : Int := s.base
 
+/-- Go's `int` has 64 bits and `+` / `-` wrap around silently (two's complement). -/
+def maxInt : Int := 9223372036854775807
+
+def wrapInt (x : Int) : Int := (x + 9223372036854775808) % 18446744073709551616 - 9223372036854775808
+
 def indexToReg (s : St) (idx : Int) : Int :=
   let base := currentLocalBase s
-  if idx > 0 then base + idx - 1
+  if idx > 0 then wrapInt (base + idx - 1)
   else if idx = 0 then -1
   else
     let tidx := (s.reg.top : Int) + idx
@@ -146,7 +152,7 @@ def pseudo : Err := .luaError "pseudo-index: not modelled"
 def replace (s : St) (idx : Int) (value : OVal) : Except Err St :=
   let base := currentLocalBase s
   if idx > 0 then
-    let reg := base + idx - 1
+    let reg := wrapInt (base + idx - 1)      -- `reg := base + idx - 1` on Go ints
     if reg < s.reg.top then do let r ← regSet s.reg reg (.val value); .ok { s with reg := r }
     else .ok s
   else if idx = 0 then .ok s
@@ -159,7 +165,7 @@ def replace (s : St) (idx : Int) (value : OVal) : Except Err St :=
 def get (s : St) (idx : Int) : Except Err Slot :=
   let base := currentLocalBase s
   if idx > 0 then
-    let reg := base + idx - 1
+    let reg := wrapInt (base + idx - 1)      -- `reg := base + idx - 1` on Go ints
     if reg < s.reg.top then regGet s.reg reg else .ok (.val none)
   else if idx = 0 then .ok (.val none)
   else if idx > Generated.RegistryIndex then
@@ -230,20 +236,121 @@ def callGFunctionRet (s : St) (returnBase : Int) (nRet : Int) (gfnret : Int) (ca
   let r ← regCopyRange s.reg returnBase ((s.reg.top : Int) - gfnret) (-1) wantret
   .ok { reg := r, base := callerBase }
 
-/-- state.go `callR(nargs, nret, -1)` as used by `Call/PCall/CallByParam`, with a host-function callee that
-    leaves `produced` on top of whatever else it pushed (`junk`) and returns `len(produced)`:
-    `base := Top()-nargs-1`; frame `LocalBase = base+1`, `ReturnBase = rbase = base`; after the main loop
-    `if nret != MultRet { reg.SetTop(rbase + nret) }`. -/
-def callR (s : St) (nargs nret : Int) (junk produced : List OVal) : Except Err St := do
-  let base := (s.reg.top : Int) - nargs - 1
-  let _fn ← regGet s.reg base            -- lv := ls.reg.Get(base)
-  let callee : St := { reg := s.reg, base := (base + 1).toNat }
-  let callee ← (junk ++ produced).foldlM push callee
-  let s' ← callGFunctionRet callee base nret produced.length s.base
+/-! #### the composed call: state.go `callR(nargs, nret, -1)` as used by `Call / PCall / CallByParam`
+
+  `callR` = `base := Top()-nargs-1; lv := reg.Get(base); fn, meta := metaCall(lv); pushCallFrame(…, lv, meta);
+  mainLoop; if nret != MultRet { reg.SetTop(rbase+nret) }` with `rbase = base`.
+  What `metaCall` finds is a parameter (`Callee`: callable selection is C04's subject); the body of a host callee is a
+  parameter too (`GFunction`: any Go code driving the API on the callee's activation and returning a count);
+  the run of a Lua callee is abstracted as the registry its OP_RETURN leaves (`callRLua`, C02's mechanism). -/
+
+/-- one stack operation of the public API, as a host function performs it (syntax shared with the Spec). -/
+abbrev StackOp := StackSpec.StackOp
+
+def applyOp (s : St) : StackOp → Except Err St
+  | .push v => push s v
+  | .pop n => pop s n
+  | .setTop i => setTop s i
+  | .insert v i => insert s v i
+  | .remove i => remove s i
+  | .replace i v => replace s i v
+
+def run (s : St) : List StackOp → Except Err St
+  | [] => .ok s
+  | o :: r => applyOp s o >>= fun s' => run s' r
+
+/-- `registry.Insert(value, reg)`: `if reg >= top { Set(reg, value); return }; top--;
+    for ; top >= reg; top-- { Set(top+1, Get(top)) }; Set(reg, value)`. -/
+def regInsert (r : Reg) (value : Slot) (reg : Int) : Except Err Reg :=
+  if reg ≥ r.top then regSet r reg value
+  else if reg < 0 then .error (.goPanic "registry.Insert: Get(-1)")   -- the loop runs down to top = -1
+  else do
+    let r1 ← insertLoop r reg.toNat (r.top - reg.toNat)
+    regSet r1 reg value
+
+/-- what `metaCall(lv)` found: `lv` is a function / `lv` has a function `__call` (meta = true) / neither (fn = nil). -/
+inductive Callee where
+  | fn | viaCall | none
+deriving DecidableEq, Repr
+
+/-- `Fn.GFunction(L)`: arbitrary Go code working on the callee's activation; it returns the number of results. -/
+abbrev GFunction := St → Except Err (St × Int)
+
+def notCallable : Err := .luaError "attempt to call a non-function object"
+
+/-- `if nret != MultRet { ls.reg.SetTop(rbase + nret) }` -/
+def callRTail (s' : St) (rbase nret : Int) : Except Err St :=
   if nret ≠ Generated.MultRet then do
-    let r ← regSetTop s'.reg (base + nret)
+    let r ← regSetTop s'.reg (rbase + nret)
     .ok { s' with reg := r }
   else .ok s'
+
+/-- `pushCallFrame(cf, lv, meta)` — `if meta { cf.NArgs++; ls.reg.Insert(lv, cf.LocalBase) }`,
+    `if cf.Fn == nil { RaiseError }` (a full call-frame stack is C12's subject) — followed by `initCallFrame` for a host
+    function (`Fn.IsG`): `ls.reg.SetTop(cf.LocalBase + cf.NArgs)`.  Result: the callee's activation, `LocalBase = base+1`. -/
+def pushCallFrameG (s : St) (nargs : Int) (kind : Callee) (lv : Slot) : Except Err St :=
+  let base := (s.reg.top : Int) - nargs - 1
+  match kind with
+  | .none => .error notCallable
+  | .fn => do
+    let r ← regSetTop s.reg (base + 1 + nargs)
+    .ok { reg := r, base := (base + 1).toNat }
+  | .viaCall => do
+    let r ← regInsert s.reg lv (base + 1)
+    let r ← regSetTop r (base + 1 + (nargs + 1))
+    .ok { reg := r, base := (base + 1).toNat }
+
+/-- `callR` with a host-function callee: frame pushed, `mainLoop` → `callGFunction`: the body runs on the callee's
+    activation and returns `gfnret`, then `CopyRange(ReturnBase = base, Top()-gfnret, -1, wantret)`, the frame is popped
+    (the base is the caller's again), and finally `if nret != MultRet { SetTop(rbase+nret) }`. -/
+def callRHost (s : St) (nargs nret : Int) (kind : Callee) (body : GFunction) : Except Err St := do
+  let base := (s.reg.top : Int) - nargs - 1
+  let lv ← regGet s.reg base                -- lv := ls.reg.Get(base)
+  match lv with
+  | .goNil => .error (.goPanic "metaCall: lvalue is a nil interface")
+  | .val _ => do
+    let c ← pushCallFrameG s nargs kind lv
+    let (callee, gfnret) ← body c
+    if gfnret < 0 then .error (.luaError "yield: not modelled")   -- switchToParentThread: C06
+    else do
+      let s' ← callGFunctionRet callee base nret gfnret s.base
+      callRTail s' base nret
+
+/-- `callR` with a Lua callee: `mainLoop` returns when the callee's OP_RETURN has run; `afterLoop` is the registry it
+    left (the frame is popped: the base is the caller's again). -/
+def callRLua (s : St) (nargs nret : Int) (afterLoop : Reg) : Except Err St :=
+  callRTail { reg := afterLoop, base := s.base } ((s.reg.top : Int) - nargs - 1) nret
+
+/-- a host function that performs `ops` through the public API and returns `n`. -/
+def opsBody (ops : List StackOp) (n : Int) : GFunction := fun c => do
+  let c' ← run c ops
+  .ok (c', n)
+
+/-- the callee used by the plain `call` request: pushes `junk`, then `produced`, returns `len(produced)`. -/
+def callR (s : St) (nargs nret : Int) (junk produced : List OVal) : Except Err St :=
+  callRHost s nargs nret .fn (opsBody ((junk ++ produced).map .push) produced.length)
+
+/-! #### the object-level entries that are not single delegations: their stack traffic
+
+  `ObjLen`, `ToStringMeta` (one argument) and vm.go `stringConcat` (two arguments) call a handler with
+  `Push(fn); Push(arg)…; Call(len(args), 1); ret := reg.Pop()`; `Concat` brackets `stringConcat` with
+  `top := reg.Top(); reg.Push(value)…; …; reg.SetTop(top)`.  (Call texts regenerated: Generated/ApiBodies.lean.) -/
+
+/-- `Push(fn); Push(a)…; Call(len(args), 1); ret := reg.Pop()`: the state afterwards and the popped slot. -/
+def callHandler (s : St) (fn : OVal) (args : List OVal) (kind : Callee) (body : GFunction) : Except Err (St × Slot) := do
+  let s ← run s ((fn :: args).map .push)
+  let s ← callRHost s args.length 1 kind body
+  let (x, r) ← regPop s.reg
+  .ok ({ s with reg := r }, x)
+
+/-- `Concat(values...)`: `top := reg.Top()`, the pushes, whatever `stringConcat` does (`inner`: reads and handler
+    calls), `reg.SetTop(top)`. -/
+def concatFrame (s : St) (values : List OVal) (inner : St → Except Err St) : Except Err St := do
+  let top := s.reg.top
+  let s1 ← run s (values.map .push)
+  let s2 ← inner s1
+  let r ← regSetTop s2.reg top
+  .ok { s2 with reg := r }
 
 /-- the recovery path of `PCall`: whatever the failed callee left in the registry above `base`,
     `ls.reg.SetTop(base)` with `base := Top()-nargs-1` computed before the call. -/
@@ -277,6 +384,40 @@ def pcallDeferred (s : St) (nargs : Int) (path : RecoverPath) (atExit : St) : Ex
   | .handlerFailed => do
     let r ← regSetTop atExit.reg base
     .ok { reg := r, base := s.base }
+
+/-! #### a protected call that fails somewhere inside, composed
+
+  `PCall(nargs, nret, errfunc)`: `base := Top()-nargs-1`, `Call(nargs, nret)` under `defer`.  The callee is entered
+  (`pushCallFrameG`), pushes values and calls on, to any depth (`descend`: each level pushes junk / partial results / a
+  function and its arguments and enters the next activation); the innermost activation pushes partial results and
+  raises (`raiseError`: `Push(message)`, panic); an error handler, if there is one, runs in a frame above everything and
+  leaves whatever it leaves (`hjunk`), returning or failing; the deferred function takes one of its exit paths. -/
+
+/-- one activation on the way down: what it pushes (the last `nargs + 1` values are the function and the arguments of
+    the call it then makes) and how `metaCall` resolves the called value. -/
+structure Level where
+  pushed : List OVal
+  nargs  : Nat
+  kind   : Callee
+deriving DecidableEq, Repr
+
+def descend : St → List Level → Except Err St
+  | c, [] => .ok c
+  | c, lv :: rest => do
+    let c1 ← run c (lv.pushed.map .push)
+    let f ← regGet c1.reg ((c1.reg.top : Int) - lv.nargs - 1)
+    let c2 ← pushCallFrameG c1 lv.nargs lv.kind f
+    descend c2 rest
+
+def pcallFailAt (s : St) (nargs : Nat) (kind : Callee) (levels : List Level) (last : List OVal) (msg : OVal)
+    (hjunk : List OVal) (path : RecoverPath) : Except Err St := do
+  let lv ← regGet s.reg ((s.reg.top : Int) - nargs - 1)
+  let c ← pushCallFrameG s nargs kind lv
+  let ci ← descend c levels                                          -- nested activations; the innermost is current
+  let cf ← run ci (last.map .push)                                   -- its partial results
+  let ce ← push cf msg                                               -- raiseError: ls.Push(message); ls.Panic(ls)
+  let ch ← run { ce with base := ce.reg.top } (hjunk.map .push)      -- what a handler's frame leaves above all that
+  pcallDeferred s nargs path ch
 
 /-- `ObjLen` (state.go) as a function of the operand class and of what the `__len` handler returned.
     `lenRes`: result of the handler when there is one; `tblLen`: `LTable.Len()` for tables. -/
@@ -350,5 +491,27 @@ def replacePseudo (p : PSt) (idx : Int) (value : OVal) (isTable : Bool) : Except
         if index < 0 then .error (.goPanic "Replace: fn.Upvalues[index]")
         else .ok { p with frame := some { f with ups := f.ups.set index.toNat value } }
       else .ok p
+
+/-! ## `Get` / `Replace` as a whole: all four branches of the `if idx > 0 … else if idx == 0 … else if idx > RegistryIndex …
+  else switch idx` chain.  The first three are `get` / `replace` above (they end in the marker error `pseudo` exactly when
+  the fourth is taken); the fourth is `getPseudo` / `replacePseudo`. -/
+
+/-- the part of an `LState` that `Get` / `Replace` can reach. -/
+structure LSt where
+  st : St        -- registry + current LocalBase
+  p  : PSt       -- G.Registry, G.Global, ls.Env, currentFrame.Fn (Env, Upvalues)
+deriving DecidableEq, Repr
+
+def lget (l : LSt) (idx : Int) : Except Err Slot :=
+  if idx > 0 ∨ idx = 0 ∨ idx > Generated.RegistryIndex then get l.st idx
+  else (getPseudo l.p idx).map Slot.val
+
+def lreplace (l : LSt) (idx : Int) (value : OVal) (isTable : Bool) : Except Err LSt :=
+  if idx > 0 ∨ idx = 0 ∨ idx > Generated.RegistryIndex then do
+    let st ← replace l.st idx value
+    .ok { l with st := st }
+  else do
+    let p ← replacePseudo l.p idx value isTable
+    .ok { l with p := p }
 
 end GLua.ApiStack
